@@ -429,15 +429,21 @@ def execute(case):
             t = node[1]
             o = world.targets[t]
             saved = o.param.num.bounds
-            o.param.num.bounds = (5, 10)      # num is 1
             try:
+                o.param.num.bounds = (5, 10)      # num is 1 (a watcher of the bounds may fail right here)
                 o.param.trigger(NAMES[node[2]], "num")
+            except FAULTS:
+                note_fault("watcher_on_slot_set")
+                raise
             except ValueError:
                 note_fault("rejected_trigger")
                 state["labels"].add("fault_during_trigger")
                 raise
             finally:
-                o.param.num.bounds = saved
+                try:
+                    o.param.num.bounds = saved
+                except FAULTS:
+                    pass                          # (the bounds are back: the assignment precedes the announcement)
         elif kind == "unknown_trigger":
             t = node[1]
             try:
